@@ -9,6 +9,7 @@
 import PestModel.Interp
 import PestModel.Gen
 import PestModel.Opt
+import PestModel.Spec
 
 open Pest
 
@@ -162,6 +163,12 @@ def encRG : RG → String
   | .oof => "oof"
   | .exc k => "exc " ++ k.name
 
+def encR0 : R0 → String
+  | .ok _ ps => "ok " ++ encPairs ps
+  | .fail => "fail"
+  | .oof => "oof"
+  | .stuck => "exc KeyError"
+
 structure Session where
   g : Grammar := { rules := [] }
   og : Option Grammar := none                      -- result of the last `O` request
@@ -204,6 +211,11 @@ def handleCore (s : Session) : Toks → Option (Session × String)
       match layer with
       | "interp" => some (s, encR1 (L1.parse g inp fuel rule k))
       | "gen" => some (s, encRG (LG.parse g inp fuel rule k))
+      | "spec" => some (s, encR0 (L0.parse g inp fuel rule k))
+      | "optspec" =>
+        match s.og with
+        | some og => some (s, encR0 (L0.parse { og with usets := s.usets } inp fuel rule k))
+        | none => some (s, "no-optimized-grammar")
       | "opt" =>
         match s.og with
         | some og => some (s, encR1 (L1.parse { og with usets := s.usets } inp fuel rule k))
